@@ -256,3 +256,44 @@ func init() {
 		return []Val{fr.x.havocVal("pub", resT(fn, 0))}
 	}
 }
+
+// ---- gocache (explorer deduplicator): ghost set of keys that were Set; Get may miss a key
+// that was set (eviction) but never reports a key that was never set ----
+func init() {
+	H := libHandlers
+	for _, inst := range []string{"[bool]", "[T]"} {
+		base := "(github.com/eko/gocache/v3/cache.CacheInterface" + inst + ")."
+		H[base+"Get"] = func(fr *Frame, st *State, c *ast.CallExpr, fn *types.Func) []Val {
+			x := fr.x
+			x.used("gocache Get/Set: ghost key set; Get may miss a set key (eviction), never hits an unset key; Set calls are counted")
+			x.u.declSort("GoString")
+			x.u.regHeap("cache.keys", "(Array Int (Array GoString Bool))")
+			r := fr.recvOf(st, c)
+			fr.expr(st, c.Args[0])
+			k := fr.expr(st, c.Args[1])
+			v := x.havocVal("hit", types.Typ[types.Bool])
+			err := x.errVal("err")
+			x.u.gfact(st.pc, fmt.Sprintf("(=> %s (select (select %s %s) %s))", v.T, x.getHeap(st, "cache.keys"), r.T, k.T))
+			return []Val{v, err}
+		}
+		H[base+"Set"] = func(fr *Frame, st *State, c *ast.CallExpr, fn *types.Func) []Val {
+			x := fr.x
+			x.u.declSort("GoString")
+			x.u.regHeap("cache.keys", "(Array Int (Array GoString Bool))")
+			r := fr.recvOf(st, c)
+			fr.expr(st, c.Args[0])
+			k := fr.expr(st, c.Args[1])
+			for _, a := range c.Args[2:] {
+				fr.expr(st, a)
+			}
+			old := x.getHeap(st, "cache.keys")
+			x.heapStore(st, "cache.keys", r.T, fmt.Sprintf("(store (select %s %s) %s true)", old, r.T, k.T))
+			cnt := "0"
+			if g, ok := st.ghost["count:cache.Set"]; ok {
+				cnt = g.T
+			}
+			st.ghost["count:cache.Set"] = x.bind(Val{T: "(+ " + cnt + " 1)", S: "Int"}, "cnt")
+			return []Val{x.errVal("err")}
+		}
+	}
+}
